@@ -59,9 +59,9 @@ Notes:
   from numpy import abs, asarray, newaxis as nwxs, zeros_like
   # cast as arrays of the same dimension
   x = asarray(x)
-  if x.dtype.kind in 'iub': x = x.astype(float) # (integers wrap or overflow)
+  if x.dtype.kind != 'c': x = x.astype(float) # (integers wrap; short floats overflow)
   xp = x if xp is None else asarray(xp)
-  if xp.dtype.kind in 'iub': xp = xp.astype(float)
+  if xp.dtype.kind != 'c': xp = xp.astype(float)
   xsize = max(len(x.shape), len(xp.shape), dmin)
   while len(x.shape) < xsize: x = x[nwxs]
   while len(xp.shape) < xsize: xp = xp[nwxs]
